@@ -169,7 +169,7 @@ def sendPing (c : Cli) : Sent :=
     let data := [maskI c.userid 256, (maskI c.inpkt.seqno 8 * 16 ||| maskI c.inpkt.fragment 16) % 256,
                  c.randSeed / 256 % 256, c.randSeed % 256]
     sendPacket { c with randSeed := (c.randSeed + 1) % 65536 } 112 data
-  else ⟨c, [sendRaw c [] 0 RAW_HDR_CMD_PING], false⟩
+  else ⟨{ c with lastrawping := c.now }, [sendRaw c [] 0 RAW_HDR_CMD_PING], false⟩
 
 /-! ### how a handler ends -/
 
@@ -420,8 +420,8 @@ def tunnelDnsRaw (c : Cli) (data : List Nat) : Cli × List CEvent × Stop :=
 
 /-! ### client_tunnel -/
 
-/-- entry of `client_tunnel`: `lastdownstreamtime = time(NULL); send_query_sendcnt = 0;` -/
-def clientTunnelEnter (c : Cli) : Cli := { c with lastdownstreamtime := c.now, sendcnt := 0 }
+/-- entry of `client_tunnel`: `lastdownstreamtime = time(NULL); lastrawping = time(NULL); send_query_sendcnt = 0;` -/
+def clientTunnelEnter (c : Cli) : Cli := { c with lastdownstreamtime := c.now, lastrawping := c.now, sendcnt := 0 }
 
 /-- `tv` and `fds` of the `select` in `client_tunnel` -/
 def selectOf (c : Cli) : Sel :=
@@ -434,6 +434,13 @@ def selectOf (c : Cli) : Sel :=
 /-- after `select`: the 60 s check -/
 def afterSelect (c : Cli) : Cli :=
   if c.lastdownstreamtime + 60 < c.now then { c with running := false } else c
+
+/-- `if (i > 0 && conn == CONN_RAW_UDP && lastrawping + selecttimeout <= time(NULL)) send_ping(dns_fd);` -
+the raw-mode keepalive sent although `select` did not time out (traffic in one direction only) -/
+def rawKeepalive (c : Cli) : Cli × List CEvent :=
+  if c.conn ≠ .dnsNull ∧ (c.lastrawping : Int) + c.selecttimeout ≤ (c.now : Int) then
+    ({ c with lastrawping := c.now }, [sendRaw c [] 0 RAW_HDR_CMD_PING])
+  else (c, [])
 
 /-- the `i == 0` branch -/
 def timeoutBranch (c : Cli) : Cli × List CEvent × Stop :=
